@@ -1,1 +1,20 @@
-fn main() {}
+use sciparse::{
+    address::addr::ScionAddr,
+    core::{encode::WireEncode, model::Model, view::View},
+    dataplane_path::model::DpPath,
+    identifier::{asn::Asn, isd::Isd, isd_asn::IsdAsn},
+    packet::model::ScionScmpPacket,
+    payload::scmp::model::{ScmpEchoRequest, ScmpMessage},
+};
+use vh_scmp::wire;
+
+fn main() {
+    let src = ScionAddr::new(IsdAsn::new(Isd(1), Asn(10)), std::net::Ipv4Addr::new(192, 0, 2, 1).into());
+    let dst = ScionAddr::new(IsdAsn::new(Isd(1), Asn(20)), std::net::Ipv4Addr::new(198, 51, 100, 1).into());
+    let p = ScionScmpPacket::new(src, dst, DpPath::Empty, ScmpMessage::EchoRequest(ScmpEchoRequest::new(7, 9, b"payload".to_vec())));
+    let v = p.try_encode_to_owned_view().unwrap();
+    let b = v.as_slice();
+    println!("{}", wire::hex(b));
+    let (h, d) = wire::describe_scmp(b).unwrap();
+    println!("{:?} {:?}", h, d);
+}
